@@ -379,6 +379,12 @@ def check_pass_value(ctx, R, classes):
                             owner_fn = f_.node
                             break
                     v = resolve(v, owner_fn)
+                    from ..paths import caller_expr
+                    i_ev = evs.index(e)
+                    if isinstance(v, ast.Name) and v.id != 'x':
+                        v = caller_expr(evs, i_ev, v)
+                    elif isinstance(v, (ast.Tuple, ast.List)) and v.elts and isinstance(v.elts[0], ast.Name) and v.elts[0].id != 'x':
+                        v = type(v)(elts=[caller_expr(evs, i_ev, v.elts[0])] + list(v.elts[1:]), ctx=ast.Load())
                     okv = isinstance(v, ast.Name) and v.id == 'x'
                     if isinstance(v, (ast.Tuple, ast.List)) and v.elts:
                         # (x, metadata) queue entries / [x] single slot
@@ -1232,6 +1238,17 @@ def check_mailbox(ctx, R, classes):
                     for i in stores:
                         e = evs[i]
                         if isinstance(e.x.get('value'), ast.Name) and e.b == frozenset({'x'}) and e.a in tested_fields:
+                            from ..paths import caller_expr
+                            val = e.x['value']
+                            # (a local bound once to [x] is the wrapped element)
+                            defs = [s_.value for f_ in ctx.model.all_funcs() if f_.module is nfn.module and f_.cls is cls
+                                    for s_ in own_nodes(f_.node) if isinstance(s_, ast.Assign) and s_.lineno <= e.line
+                                    and any(isinstance(t, ast.Name) and t.id == val.id for t in s_.targets)]
+                            if len(defs) == 1 and isinstance(defs[0], (ast.List, ast.Tuple)):
+                                continue
+                            val = caller_expr(evs, i, val)
+                            if isinstance(val, (ast.List, ast.Tuple)):
+                                continue
                             bare = (e, evs)
                 R.ob('MAILBOX', ctx.construct(nfn), 'notify-on-every-store', badn is None and nn > 0,
                      'a path stores a new element into the slot without notifying the forwarding coroutine: it can sleep for '
